@@ -29,7 +29,7 @@ type column struct {
 	name      string
 	ctype     string
 	notnull   int
-	dfltValue *int
+	dfltValue *string // the DEFAULT expression as text, e.g. 0 or 'n/a'; nil if there is none
 	pk        int
 }
 
